@@ -1,5 +1,4 @@
 import json
-import string
 from enum import Enum
 from typing import Any, Dict, List
 
@@ -50,7 +49,7 @@ def to_json(feature_model: FeatureModel) -> Dict[str, Any]:
 
 def get_tree_info(feature: Feature) -> Dict[str, Any]:
     feature_info: Dict[str, Any] = {}
-    feature_info['name'] = safename(feature.name)
+    feature_info['name'] = feature.name
     feature_info['abstract'] = feature.is_abstract
 
     relations: List[Dict[str, Any]] = []
@@ -91,7 +90,7 @@ def get_attributes_info(attributes: List[Attribute]) -> List[Dict[str, Any]]:
     attributes_info: List[Dict[str, Any]] = []
     for attribute in attributes:
         attr_info: Dict[str, Any] = {}
-        attr_info['name'] = safename(attribute.name)
+        attr_info['name'] = attribute.name
         if attribute.default_value is not None:
             attr_info['value'] = attribute.default_value
         attributes_info.append(attr_info)
@@ -113,7 +112,7 @@ def get_ctc_info(ast_node: Node) -> Dict[str, Any]:
     ctc_info: Dict[str, Any] = {}
     if ast_node.is_term():
         ctc_info['type'] = JSONFeatureType.FEATURE.value
-        ctc_info['operands'] = [safename(str(ast_node.data))]
+        ctc_info['operands'] = [str(ast_node.data)]
     else:
         ctc_info['type'] = ast_node.data.value
         operands: List[Dict[str, Any]] = []
@@ -125,10 +124,3 @@ def get_ctc_info(ast_node: Node) -> Dict[str, Any]:
         ctc_info['operands'] = operands
     return ctc_info
 
-
-def safename(name: str) -> str:
-    return f'"{name}"' if any(char not in safecharacters() for char in name) else name
-
-
-def safecharacters() -> str:
-    return string.ascii_letters + string.digits + '_'
